@@ -4,7 +4,7 @@ translator output `Gen/*`) on requests produced by the Python harness.  Imports 
 from Mathlib, so it links as a plain `lean_exe`.
 -/
 import Driver.Parse
-import Driver.Ops
+import Driver.Table
 open ZVD
 
 partial def loop (h : IO.FS.Stream) (out : IO.FS.Stream) : IO Unit := do
